@@ -265,8 +265,10 @@ class Model:
                     if name not in cands:
                         continue
                     par = getattr(node, "_parent", None)
-                    direct = isinstance(par, ast.Call) and par.func is node and \
-                        not any(isinstance(a, ast.Starred) for a in par.args) and not any(k.arg is None for k in par.keywords)
+                    direct = isinstance(par, ast.Call) and par.func is node and not any(k.arg is None for k in par.keywords) and \
+                        (not any(isinstance(a, ast.Starred) for a in par.args) or
+                         (sum(isinstance(a, ast.Starred) for a in par.args) == 1 and
+                          all(fi.node.args.vararg is None for fi in cands[name])))
                     if direct:
                         calls[name] += 1
                     else:
